@@ -324,7 +324,7 @@ def c02(tier):
 def c09(tier):
     ck = Check('C09', tier)
     q = tier == 'quick'
-    cfg = {'modes': [0, 4, 8, 9], 'exh_cap': 300 if q else 600, 'exh_len': 5, 'n_rand': 30, 'n_mut': 80, 'long': (30, 120), 'n_raw': 16}
+    cfg = {'modes': [0, 4, 8, 9], 'exh_cap': 300 if q else 600, 'exh_len': 5, 'n_rand': 30, 'n_mut': 80, 'long': (30, 120), 'n_raw': 16, 'long_gap': 2}
     gs = gen_grammars('C09', tier, 160 if q else 2000, 'plain') + gen_grammars('C09', tier, 96 if q else 1000, 'decorated')
     rnd = random.Random(common.seed() * 9001 + 9)
     gs = [nonprintable_terms(g, rnd) if (i % 4 == 1 and len(g.terms) <= 12 and not getattr(g, 'lexspec', None)) else g for i, g in enumerate(gs)]
@@ -340,7 +340,7 @@ def c10(tier):
     ck = Check('C10', tier)
     q = tier == 'quick'
     cfg = {'modes': [0, 7, 8, 9], 'exh_cap': 120 if q else 300, 'exh_len': 4, 'n_rand': 40, 'n_mut': 40, 'long': (30, 120) if q else (100, 600),
-           'n_ws': 400, 'ws': 0.6, 'n_raw': 10}
+           'n_ws': 400, 'ws': 0.6, 'n_raw': 10, 'long_gap': 2}
     merge(ck, run_pipeline('C10', tier, gen_grammars('C10', tier, 128 if q else 1500, 'positions'), cfg))
     ck.cov['rule'] = ('grammars with char/string/typed terms, multi-line lexemes, newline and whitespace characters as terms, error rules; inputs dense in space, tab, CR, LF, VT, FF; '
                       'all four skip_whitespace x skip_newline settings; every term value seen by a functor and every message position is compared with line/column computed from the '
@@ -558,7 +558,7 @@ def c08(tier):
 def c13(tier):
     ck = Check('C13', tier)
     q = tier == 'quick'
-    cfg = {'modes': [0, 20, 21, 22, 23, 24, 25, 26, 27, 28, 29, 30], 'exh_cap': 80 if q else 200, 'exh_len': 4, 'n_rand': 40, 'n_mut': 30, 'long': (30, 300) if q else (100, 1000), 'n_ws': 4, 'n_raw': 2}
+    cfg = {'modes': [0, 20, 21, 22, 23, 24, 25, 26, 27, 28, 29, 30, 31], 'exh_cap': 80 if q else 200, 'exh_len': 4, 'n_rand': 40, 'n_mut': 30, 'long': (30, 300) if q else (100, 1000), 'n_ws': 4, 'n_raw': 2}
     merge(ck, run_pipeline('C13', tier, gen_grammars('C13', tier, 128 if q else 1500, 'context'), cfg))
     ck.cov['rule'] = ('grammars mixing >= and >>= functors (and some with none); context categories lvalue, const lvalue, rvalue temporary, move-only lvalue, named objects passed with std::move, through the overloads with and without parse_options / stream; each contextual functor logs whether it '
                       'received the caller\'s object (address), its constness and the number of calls the object has seen, and bumps it; after the call the caller\'s counter must equal the number of '
@@ -757,6 +757,11 @@ def c07(tier):
         if len(ref_lr1.build(g).states) > 40: continue
         add(g)
     specs = [{'seed': common.seed() * 19 + i, 'grammars': [g.to_json() for g in c], 'n_inputs': 14 if q else 40} for i, c in enumerate(chunks(gs, 3))]
+    # texts longer than the 1024 entries the run-time stacks reserve: constant evaluation and the fixed stacks must not depend on a size class
+    from .grammar import simple
+    lg = simple('S->S a | S b | a'); lg.note = 'c07:long-text'
+    longs = [b'a' * 1021, b'a' * 1023, b'ab' * 760, b'a' * 1100 + b'?', b'a' * 1200 + b' ' + b'b' * 900]
+    specs.append({'seed': 1, 'grammars': [lg.to_json()], 'n_inputs': 0, 'explicit_inputs': [[d.hex() for d in longs]], 'long_literals': True})
     merge(ck, common.pmap(cec.worker, specs))
     ck.cov['rule'] = ('generated programs with literal-typed grammars (char/string terms, precedence, error rules, contextual functors): each input (accepted, syntactically wrong, lexically wrong; '
                       'four whitespace option sets) is parsed in a constexpr initializer compiled by g++ and by clang++ (the constant evaluators execute the real parse path and reject undefined '
@@ -842,7 +847,7 @@ def replay(prop, path):
         if isinstance(case, dict) and case.get('grammar') and prop in pipeline.JUDGES:
             from .grammar import Grammar
             g = Grammar.from_json(case['grammar'])
-            modes = {'C01': [0], 'C02': [0, 3, 4], 'C05': [0], 'C08': [0, 1], 'C09': [0, 4, 8, 9], 'C10': [0, 7, 8, 9], 'C11': [1], 'C13': [0, 20, 21, 22, 23, 24, 25, 26, 27, 28, 29, 30], 'C14': [0], 'C16': [0, 1, 2, 5, 6], 'C18': [0, 1, 3, 4, 7, 8, 9]}[prop]
+            modes = {'C01': [0], 'C02': [0, 3, 4], 'C05': [0], 'C08': [0, 1], 'C09': [0, 4, 8, 9], 'C10': [0, 7, 8, 9], 'C11': [1], 'C13': [0, 20, 21, 22, 23, 24, 25, 26, 27, 28, 29, 30, 31], 'C14': [0], 'C16': [0, 1, 2, 5, 6], 'C18': [0, 1, 3, 4, 7, 8, 9]}[prop]
             inputs = [case['input']] if case.get('input') is not None else ['']
             spec = {'prop': prop, 'grammars': [g.to_json()], 'seed': 1, 'flavour': 'clang', 'cfg': {'modes': modes, 'timeout': 300}, 'explicit_inputs': [inputs]}
             outs = [pipeline.worker(spec)]
